@@ -42,6 +42,7 @@ SEMANTIC = (
     "might not be allowed",
     "index out of bounds",
     "possible negative",
+    "of closure",          # "unable to prove post-condition / pre-condition of closure"
 )
 
 
@@ -376,7 +377,37 @@ def pre_fn_signature(item):
     gen = span(fp.name_pos + 1, fp.params_open)
     params = " ".join(span(fp.params_open + 1, fp.params_close).split())
     if "&mut " in params or "& mut " in params:
-        raise ValueError(f"//@implspec with requires: &mut parameters are not supported ({item.name})")
+        # (journal unit) `&mut` receiver / parameters: the spec fn takes them as `&T`, is called with `&*old(p)`, and
+        # `old(p)` in the requires text becomes `p` (receiver: `__s`).  4th element of the call shape = the text rewrites.
+        fg = gen.strip()[1:-1].strip() if gen.strip() else ""
+        gnames = [re.split(r"[:=]", x.strip())[0].replace("const ", "").strip() for x in split_top(fg)] if fg else []
+        turbofish = ("::<" + ", ".join(gnames) + ">") if gnames else ""
+        nparams, args, repl, prefix = [], [], [], "Self::"
+        for a in split_top(params):
+            a = a.strip()
+            if not a:
+                continue
+            if re.fullmatch(r"&\s*mut\s+self", a):
+                nparams.append("__s: &Self")
+                args.append("&*old(self)")
+                repl.append((r"old\(\s*self\s*\)", "__s"))
+                continue
+            if re.fullmatch(r"&?\s*(mut\s+)?self", a):
+                nparams.append("__s: &Self")
+                args.append("&*self" if a.startswith("&") else "&self")
+                repl.append((r"\bself\b", "__s"))
+                continue
+            name, ty = a.split(":", 1)
+            name = re.sub(r"^mut\s+", "", name.strip())
+            m = re.match(r"&\s*(?:'\w+\s+)?mut\s+(.*)", ty.strip())
+            if m:
+                nparams.append(f"{name}: &{m.group(1)}")
+                args.append(f"&*old({name})")
+                repl.append((rf"old\(\s*{name}\s*\)", name))
+            else:
+                nparams.append(f"{name}: {ty.strip()}")
+                args.append(name)
+        return gen, ", ".join(nparams), (prefix, turbofish, ", ".join(args), repl)
     names = []
     recv = False
     for a in split_top(params):
@@ -422,6 +453,10 @@ def generate(unit, probe=False, repo=None):
         if kind == "views":
             c = load_contract(val[0])
             t = views_text(c, val[1] == "uninterp")
+            if val[1] == "sharedpub":
+                # proving unit over external (public) types only: the shared definitions are `pub open`, so that the
+                # unit's own `pub assume_specification`s (public methods of external types) may mention them
+                t = re.sub(r"^(\s*)spec fn", r"\1pub open spec fn", t, flags=re.M)
             out.append(t)
             line += t.count("\n")
             if val[1] == "uninterp":
@@ -505,6 +540,8 @@ def generate(unit, probe=False, repo=None):
                     req, ens = split_requires(opts["clauses"])
                     pname = f"__pre_{b.rename or item.name}"
                     pgen, pparams, pargs = pre_fn_signature(item)
+                    for (rx, by) in (pargs[3] if len(pargs) > 3 else []):
+                        req = re.sub(rx, by, req)
                     pre_decl = f"    spec fn {pname}{pgen}({pparams}) -> bool;\n"
                     pre_def = f"    spec fn {pname}{pgen}({pparams}) -> bool {{\n        " + \
                               " && ".join("(" + c.strip() + ")" for c in split_clauses(req) if c.strip()) + "\n    }\n"
@@ -528,7 +565,9 @@ def generate(unit, probe=False, repo=None):
         raw = item.text()
         rec = {
             "path": b.path, "spec": b.spec, "kind": item.kind, "name": b.rename or item.name,
-            "parent": item.parent.name if item.parent is not None else None,
+            # (extension-trait methods are reported by Verus under the bare path of the type they are implemented for)
+            "parent": (re.sub(r"<.*$", "", ty).strip() if (item.kind == "fn" and b.trait is not None)
+                       else item.parent.name if item.parent is not None else None),
             "src_line": item.line(), "sha256": extract.sha(raw),
             "out_lines": [start, line - 1], "has_requires": has_req, "contract": bool(b.clauses.strip()),
             "drops": drops, "finding": b.finding,
